@@ -48,11 +48,11 @@ func init() {
 		for _, b := range fn.Blocks {
 			for _, in := range b.Instrs {
 				call, isCall := in.(*ssa.Call)
-				if !isCall || len(fn.Params) < 2 || call.Call.Value != fn.Params[1] || len(call.Call.Args) < 2 {
+				if !isCall || len(fn.Params) < 2 || call.Call.Value != fn.Params[1] || len(BaselineArgs(&call.Call)) < 2 {
 					continue
 				}
 				n++
-				if loopCarried(call.Call.Args[1]) {
+				if loopCarried(BaselineArgs(&call.Call)[1]) {
 					ok = false
 					pos = in
 				}
@@ -73,7 +73,7 @@ func init() {
 	// no iteration may go round without appending its gap and size.
 	RegisterExtra("C25", func(c *Ctx) {
 		c.EveryCyclePasses("(*quic.packetWriter).appendAckFrame", Calls("internal/quic/quicwire.AppendVarint").Where("inside the range loop", func(in ssaInstr) bool {
-			return strings.Contains(Term(in.(*ssa.Call).Call.Args[1]), "φi")
+			return strings.Contains(Term(BaselineArgs(&in.(*ssa.Call).Call)[1]), "φi")
 		}))
 	})
 	// C26 (seed: the recovery-period early return moved above the in-flight decrement): an in-flight
@@ -96,10 +96,10 @@ func init() {
 		// the far-enough test adds size*numBuckets (structure, not local names: the loop may be index- or range-based)
 		isFar := func(v ssa.Value) bool {
 			call, ok := v.(*ssa.Call)
-			if !ok || CalleeName(&call.Call) != "(time.Time).Add" || len(call.Call.Args) < 2 {
+			if !ok || CalleeName(&call.Call) != "(time.Time).Add" || len(BaselineArgs(&call.Call)) < 2 {
 				return false
 			}
-			t := Term(call.Call.Args[1])
+			t := Term(BaselineArgs(&call.Call)[1])
 			return strings.HasSuffix(t, ".size*$r.numBuckets)") && strings.HasPrefix(t, "($r.levels[")
 		}
 		c.Has(fn, Calls("(time.Time).Add").Where("level.end + size*numBuckets", func(in ssaInstr) bool { return isFar(in.(ssa.Value)) }))
@@ -117,7 +117,7 @@ func init() {
 					if fact.Atom.Kind != FALS {
 						continue
 					}
-					if bc, isCall := ifCondCall(fact.If); isCall && CalleeName(&bc.Call) == "(time.Time).Before" && len(bc.Call.Args) == 2 && isFar(bc.Call.Args[1]) {
+					if bc, isCall := ifCondCall(fact.If); isCall && CalleeName(&bc.Call) == "(time.Time).Before" && len(BaselineArgs(&bc.Call)) == 2 && isFar(BaselineArgs(&bc.Call)[1]) {
 						guarded = true
 					}
 				}
@@ -340,7 +340,7 @@ func init() {
 		why := ""
 		for _, in := range Calls("bpf.loadCommon").F(c.P, fn) {
 			n++
-			arg := in.(*ssa.Call).Call.Args[1]
+			arg := BaselineArgs(&in.(*ssa.Call).Call)[1]
 			add, isAdd := arg.(*ssa.BinOp)
 			if !isAdd || add.Op != token.ADD {
 				ok, why = false, "the offset passed to loadCommon is not a sum: "+Term(arg)
@@ -404,10 +404,10 @@ func init() {
 		n := 0
 		for _, in := range Calls("(*html.parser).elementInScope").F(c.P, fn) {
 			call := in.(*ssa.Call)
-			if len(call.Call.Args) < 3 {
+			if len(BaselineArgs(&call.Call)) < 3 {
 				continue
 			}
-			sl, ok := call.Call.Args[2].(*ssa.Slice)
+			sl, ok := BaselineArgs(&call.Call)[2].(*ssa.Slice)
 			if !ok {
 				continue
 			}
@@ -431,7 +431,7 @@ func init() {
 			}
 			if len(tags) == 1 && tags[0] == body {
 				n++
-				scopes[Term(call.Call.Args[1])]++
+				scopes[Term(BaselineArgs(&call.Call)[1])]++
 			}
 		}
 		if n < 2 {
